@@ -90,6 +90,7 @@ func runC18(c *Ctx) {
 	}
 	r.Floor("doc-lock", nd, 2, "accesses to the document map")
 	c18Mirror(c, p)
+	c18LinesPartition(c, p)
 	// R3 bounds
 	be := newBoundsEngine(p)
 	nb := 0
@@ -789,5 +790,87 @@ func c18Framing(c *Ctx, p *core.Prog) {
 		r.OK("framing", "sendMessage|content-length", p.Pos(writes[0].Pos()), "Content-Length is len() of the very slice written next")
 	} else {
 		r.Violate("framing", "sendMessage|content-length", p.Pos(writes[0].Pos()), "the Content-Length header is not computed from the byte slice that is written as the body")
+	}
+}
+
+// c18LinesPartition: positionToOffset adds len(line)+1 per preceding line, which is the byte offset only if the lines are
+// exactly the pieces of the content between "\n" separators. splitLines (the function mirror-coupling anchors on) must
+// therefore return strings.Split(content, "\n") itself, or a constant slice for the empty document, with no element
+// rewritten: trimming "\r", dropping a trailing empty line or splitting on another separator shifts every later edit.
+func c18LinesPartition(c *Ctx, p *core.Prog) {
+	r := c.R
+	r.Rule("lines-partition", "splitLines returns strings.Split(content, \"\\n\") of its parameter unmodified (or a constant slice for the empty document): positionToOffset's len(line)+1 arithmetic is the byte offset only then")
+	fn := p.Func("pkg/lsp", "splitLines")
+	if fn == nil {
+		r.Undecide("lines-partition", "splitLines", "-", "pkg/lsp.splitLines not found: the line table is built some other way; re-audit")
+		return
+	}
+	if len(fn.Params) != 1 {
+		r.Violate("lines-partition", "splitLines", p.FnPos(fn), "splitLines no longer takes the content alone")
+		return
+	}
+	var probs []string
+	isSplit := func(v ssa.Value) bool {
+		call, ok := v.(*ssa.Call)
+		if !ok {
+			return false
+		}
+		f := call.Call.StaticCallee()
+		if f == nil || core.FnPkg(f) == nil || core.FnPkg(f).Path() != "strings" || f.Name() != "Split" || len(call.Call.Args) != 2 {
+			return false
+		}
+		sep, isC := core.ConstString(call.Call.Args[1])
+		return isC && sep == "\n" && call.Call.Args[0] == ssa.Value(fn.Params[0])
+	}
+	var okVal func(v ssa.Value, d int) bool
+	okVal = func(v ssa.Value, d int) bool {
+		if d > 4 {
+			return false
+		}
+		switch x := v.(type) {
+		case *ssa.Phi:
+			for _, e := range x.Edges {
+				if !okVal(e, d+1) {
+					return false
+				}
+			}
+			return true
+		case *ssa.Slice:
+			// a composite literal []string{""}: a fresh array whose elements are constants
+			if al, ok := x.X.(*ssa.Alloc); ok {
+				for _, ref := range core.Referrers(al) {
+					if ia, ok := ref.(*ssa.IndexAddr); ok {
+						for _, r2 := range core.Referrers(ia) {
+							if st, ok := r2.(*ssa.Store); ok {
+								if _, isC := st.Val.(*ssa.Const); !isC {
+									return false
+								}
+							}
+						}
+					}
+				}
+				return true
+			}
+		}
+		return isSplit(v)
+	}
+	for _, b := range fn.Blocks {
+		for _, in := range b.Instrs {
+			switch x := in.(type) {
+			case *ssa.Return:
+				if len(x.Results) != 1 || !okVal(x.Results[0], 0) {
+					probs = append(probs, "the value returned at "+p.Pos(x.Pos())+" is not strings.Split(content, \"\\n\") (or a constant slice)")
+				}
+			case *ssa.Store:
+				if ia, ok := x.Addr.(*ssa.IndexAddr); ok && isSplit(ia.X) {
+					probs = append(probs, "an element of the split is rewritten at "+p.Pos(x.Pos()))
+				}
+			}
+		}
+	}
+	if len(probs) == 0 {
+		r.OK("lines-partition", "splitLines", p.FnPos(fn), "returns strings.Split(content, \"\\n\") unmodified")
+	} else {
+		r.Violate("lines-partition", "splitLines", p.FnPos(fn), strings.Join(probs, "; ")+": the lines no longer add up to the content, so the byte offset of every position after the first affected line is wrong and an incremental edit lands in the wrong place")
 	}
 }
